@@ -236,13 +236,34 @@ fn check_log(sc: &Scenario, log: &[LogEntry]) -> Vec<Violation> {
     // Closed state. If even that upper bound is below the threshold, no linearisation explains it.
     for e in &by_end {
         if e.before == 0 && e.after == 1 {
-            // last success that certainly completed before any candidate failure began does not matter;
-            // we only bound from above: all failures that started before e.end
-            let possible = by_end.iter().filter(|x| x.op == OpKind::Failure && x.start < e.end).count() as u32;
-            if possible < sc.failure_threshold {
+            // The breaker opened somewhere inside this call's interval. Any record_failure overlapping
+            // the interval may be the one that opened it. For a candidate opener c, an upper bound on the
+            // consecutive failures at its linearisation point is: failures that started before c ended
+            // and are not *certainly* separated from c by a success (a success S separates failure f
+            // from c in every linearisation iff f.end < S.start and S.end < c.start; any such success -
+            // or the closing that must follow it - reset the failure count). The opening is unexplained
+            // only if no candidate reaches the threshold.
+            let successes: Vec<&&LogEntry> = by_end.iter().filter(|x| x.op == OpKind::Success).collect();
+            let candidates: Vec<&&LogEntry> = by_end.iter().filter(|c| c.op == OpKind::Failure && c.start < e.end && c.end > e.start).collect();
+            let best = candidates
+                .iter()
+                .map(|c| {
+                    by_end
+                        .iter()
+                        .filter(|f| f.op == OpKind::Failure && f.start < c.end)
+                        .filter(|f| std::ptr::eq::<LogEntry>(**f, **c) || !successes.iter().any(|s| f.end < s.start && s.end < c.start))
+                        .count() as u32
+                })
+                .max()
+                .unwrap_or(0);
+            let possible = best;
+            // a failure that may have been evaluated while the breaker was half-open re-opens it at once
+            // (documented design); "may": it, or a call overlapping it, sampled the HalfOpen state
+            let half_open_failure = candidates.iter().any(|c| c.before == 2 || c.after == 2 || by_end.iter().any(|x| (x.before == 2 || x.after == 2) && x.start < c.end && x.end > c.start));
+            if possible < sc.failure_threshold && !half_open_failure {
                 out.push(Violation {
                     signature: "C26/opened-early/record_failure/closed-to-open".into(),
-                    detail: format!("breaker went from Closed to Open although at most {possible} failures had started (threshold {})", sc.failure_threshold),
+                    detail: format!("breaker went from Closed to Open although no overlapping record_failure can be the {}-th consecutive failure (at most {possible} failures not separated from it by a success)", sc.failure_threshold),
                 });
                 break;
             }
@@ -287,7 +308,7 @@ impl Engine for BreakerSim {
             level: "exploration",
             rule: "one shuttle execution per run: thresholds and 2-3 threads x 3-8 calls (should_allow_request, record_success, record_failure, estimated_recovery_time, current_state) drawn from the run seed, the simulated wall clock advanced by 0..2x recovery (or stepped backwards in clock-fault runs) before each call; every atomic access of the real breaker source is a scheduling point of shuttle's seeded random or PCT (depth 2-4) scheduler. Non-trivial = two threads were simultaneously inside should_allow_request while the state was Open and the recovery time had elapsed; distinct by hash of (parameters, observed call-interval log).",
             quick_runs: 120_000,
-            thorough_runs: 6_000_000,
+            thorough_runs: 3_000_000,
             real_components: &["crates/sierradb-cluster/src/circuit_breaker.rs (the source file itself, compiled by build.rs against shuttle atomics)"],
             stub_components: &["std::sync::atomic -> shuttle::sync::atomic", "SystemTime -> simulated millisecond clock"],
             assumptions: &["sequentially consistent exploration: shuttle interleaves at atomic accesses but does not model weak memory orderings", "the probe bound tolerates the request that triggered the Open->HalfOpen transition as the first probe"],
@@ -327,6 +348,14 @@ impl Engine for BreakerSim {
             }
         }));
         let log: Vec<LogEntry> = LOG.lock().unwrap_or_else(|e| e.into_inner()).clone();
+        if std::env::var_os("VERIF_TRACE").is_some() {
+            eprintln!("params: threshold {} recovery {}ms half_open_max {} success_threshold {}", sc_ref.failure_threshold, sc_ref.recovery_ms, sc_ref.half_open_max, sc_ref.success_threshold);
+            let mut l: Vec<&LogEntry> = log.iter().collect();
+            l.sort_by_key(|e| e.start);
+            for e in l {
+                eprintln!("t{} {:?} allowed={:?} state {}->{} steps [{},{}] clock {}", e.thread, e.op, e.allowed, e.before, e.after, e.start, e.end, e.clock);
+            }
+        }
         let mut out = RunOutcome::default();
         out.evaluations = log.len().max(1) as u64;
         out.steps = STEP.load(StdOrdering::SeqCst);
